@@ -1062,7 +1062,7 @@ def strategy(tier, shard, nshards):
 def budget(tier):
     if tier == "quick":
         return {"examples": 800, "shards": 16, "guard_s": 900}
-    return {"examples": 9000, "shards": 16, "guard_s": 7200}
+    return {"examples": 14000, "shards": 16, "guard_s": 7200}
 
 
 def _labels_c2s(trace, obs, facts, labels):
@@ -1079,6 +1079,8 @@ def _labels_c2s(trace, obs, facts, labels):
             labels.add("multi-literal")
         for h in e["hdrs"]:
             labels.add("lit:nonsync" if h["plus"] else "lit:sync")
+            if h["n"] > (1 << 20) and e["end"] - e["start"] > (1 << 20):
+                labels.add("lit:>1MiB-on-the-wire")
         if e["longest"] > obs["client_limit"]:
             labels.add("long-line")
         for c in e["comps"]:
